@@ -184,7 +184,24 @@ func (e *evaluator) eval1(x ast.Expr) *Term {
 		return t
 	case *ast.FuncLit:
 		if g := e.p.FuncByLit[x]; g != nil {
-			return mk("func", atom(g.Name))
+			t := mk("func", atom(g.Name))
+			// a literal built inside a factory (a function returning function values) leaves with the factory's
+			// parameters as they are bound at this point
+			if e.f != nil && g.Parent == e.f && returnsFuncValue(e.f) && len(e.f.Params) > 0 {
+				env := &Term{Op: "env"}
+				for i, pr := range e.f.Params {
+					var v *Term
+					if e.st != nil {
+						v = e.st.vars[pr]
+					}
+					if v == nil {
+						v = atom(fmt.Sprintf("P%d", i)).withType(pr.Type()).withObj(pr)
+					}
+					env.A = append(env.A, v)
+				}
+				t.A = append(t.A, env)
+			}
+			return t
 		}
 		return mk("func", atom("?"))
 	case *ast.TypeAssertExpr:
@@ -461,6 +478,17 @@ func (e *evaluator) inlineable(g *Func) bool {
 				return true
 			}
 		}
+		// a named re-slicing of a parameter ("the key without its family prefix")
+		if _, isSl := ast.Unparen(ret.Results[0]).(*ast.SliceExpr); isSl && isSlice {
+			return true
+		}
+	}
+	// unexported one-line factories of function values ("return func(...) {...}" over the parameters): the call is
+	// the literal together with the arguments it captured
+	if n == 1 && len(g.Res) == 1 && len(ret.Results) == 1 && g.Obj != nil && !g.Obj.Exported() && (g.pkgName() == "keeper" || g.pkgName() == "types" || g.pkgName() == "service") {
+		if _, isLit := ast.Unparen(ret.Results[0]).(*ast.FuncLit); isLit {
+			return true
+		}
 	}
 	// only constructors (composite literal results) and iterator wrappers
 	for _, r := range g.Res {
@@ -497,7 +525,22 @@ func (e *evaluator) inlineCall(g *Func, recv *Term, args []*Term) *Term {
 		m["Precv"] = recv
 	}
 	if len(rs) == 1 {
-		return rs[0].Subst(m)
+		r := rs[0].Subst(m)
+		// a function literal of g leaves g with its captured parameters bound to this call's arguments
+		if r.Is("func") && len(r.A) == 1 && len(g.Params) > 0 {
+			if lit := e.p.FuncNamed(r.A[0].At); lit != nil && lit.Parent == g {
+				env := &Term{Op: "env"}
+				for i := range g.Params {
+					if i < len(args) {
+						env.A = append(env.A, args[i])
+					} else {
+						env.A = append(env.A, atom("?"))
+					}
+				}
+				return &Term{Op: "func", A: []*Term{r.A[0], env}, Typ: r.Typ}
+			}
+		}
+		return r
 	}
 	t := &Term{Op: "tuple"}
 	for _, r := range rs {
@@ -582,7 +625,31 @@ func (e *evaluator) evalCall(call *ast.CallExpr) *Term {
 	case *types.Func:
 		ci.name = qname(c)
 		ci.fn = e.p.FuncByObj[c]
+		e.normPrefixStore(ci)
+		// a method of an iterator over a sub-store: the iterator itself is the parent store's; its keys are relative
+		var relP *Term
+		if plain, P, ok := relIter(ci.recv); ok && strings.Contains(ci.name, "Iterator.") {
+			ci.recv = plain
+			if strings.HasSuffix(ci.name, "Iterator.Key") {
+				relP = P
+			}
+		}
+		// store.Iterator(p, PrefixEndBytes(p)) is the prefix scan of p (the SDK's own definition of KVStorePrefixIterator)
+		if (strings.HasSuffix(ci.name, "KVStore.Iterator") || strings.HasSuffix(ci.name, "KVStore.ReverseIterator")) && len(ci.args) == 2 && ci.recv != nil {
+			if end := stripConv(ci.args[1]); end.Op == "sdk.PrefixEndBytes" && len(end.A) == 1 && stripConv(end.A[0]).Eq(stripConv(ci.args[0])) {
+				rev := strings.HasSuffix(ci.name, "ReverseIterator")
+				ci.name = "sdk.KVStorePrefixIterator"
+				if rev {
+					ci.name = "sdk.KVStoreReversePrefixIterator"
+				}
+				ci.args = []*Term{ci.recv, ci.args[0]}
+				ci.recv = nil
+			}
+		}
 		result = e.callTerm(ci)
+		if relP != nil {
+			result = mk("slice", result, mk("len", relP), atom("_")).withType(result.Typ)
+		}
 	default:
 		ci.name = "dyn"
 		ci.fun = e.eval(call.Fun)
@@ -590,7 +657,7 @@ func (e *evaluator) evalCall(call *ast.CallExpr) *Term {
 		if ci.fun.Is("func") && len(ci.fun.A) >= 1 {
 			if g := e.p.FuncNamed(ci.fun.A[0].At); g != nil {
 				ci.fn = g
-				if len(ci.fun.A) == 2 {
+				if len(ci.fun.A) == 2 && ci.fun.A[1].Op != "env" {
 					ci.recv = ci.fun.A[1]
 				}
 			}
@@ -624,6 +691,8 @@ func (e *evaluator) evalCall(call *ast.CallExpr) *Term {
 	}
 	if e.st != nil && !e.quiet {
 		e.st.emitCall(ci, result)
+		// a method with a pointer receiver called on a local struct variable may update that variable
+		e.recvOut(call, ci, result)
 		// out-parameters: &x passed to a call -> x becomes (out call i)
 		for i, a := range call.Args {
 			if !writesThroughPointer(ci) {
@@ -806,4 +875,147 @@ func (p *Prog) neverWritesParam(g *Func, i int) bool {
 		}
 	}
 	return true
+}
+
+// returnsFuncValue: some result of f is a function value.
+func returnsFuncValue(f *Func) bool {
+	for _, r := range f.Res {
+		if _, ok := r.Type().Underlying().(*types.Signature); ok {
+			return true
+		}
+	}
+	return false
+}
+
+// recvOut: after x.M(...) with M a module method on *T and x a local variable of struct type T, x holds what M
+// leaves behind its receiver — M's summary if all its committed paths agree, else an opaque (out call -1).
+func (e *evaluator) recvOut(call *ast.CallExpr, ci *callInfo, result *Term) {
+	if ci.fn == nil || ci.fn.Recv == nil || ci.fn.Body == nil || !ci.fn.isHandWritten() {
+		return
+	}
+	pt, ok := types.Unalias(ci.fn.Recv.Type()).(*types.Pointer)
+	if !ok || namedStruct(pt.Elem()) == "" || isKeeperType(pt.Elem()) {
+		return
+	}
+	sel, ok := ast.Unparen(call.Fun).(*ast.SelectorExpr)
+	if !ok {
+		return
+	}
+	x := ast.Unparen(sel.X)
+	if u, ok := x.(*ast.UnaryExpr); ok && u.Op == token.AND {
+		x = ast.Unparen(u.X)
+	}
+	id, ok := x.(*ast.Ident)
+	if !ok {
+		return
+	}
+	v, ok := e.info().Uses[id].(*types.Var)
+	if !ok || namedStruct(v.Type()) == "" {
+		return
+	}
+	if _, isPtr := types.Unalias(v.Type()).(*types.Pointer); isPtr {
+		return
+	}
+	if e.p.pathsBusy[ci.fn] {
+		return
+	}
+	writes := false
+	for _, pa := range e.p.PathsOf(ci.fn) {
+		if _, w := pa.Out[-1]; w {
+			writes = true
+		}
+	}
+	if !writes {
+		return
+	}
+	if os := e.p.outSummary(ci.fn, -1); os != nil {
+		m := map[string]*Term{}
+		for j, aj := range ci.args {
+			m[fmt.Sprintf("P%d", j)] = stripAddr(aj)
+		}
+		if ci.recv != nil {
+			m["Precv"] = stripAddr(ci.recv)
+		}
+		nv := os.Subst(m)
+		nv.Typ = v.Type()
+		e.st.vars[v] = nv
+		return
+	}
+	e.st.vars[v] = mk("out", result, atom("-1")).withType(v.Type())
+}
+
+const prefixStorePkg = "github.com/cosmos/cosmos-sdk/store/prefix"
+
+// isPrefixStore: t is prefix.NewStore(S, P) — returns S and P.
+func isPrefixStore(t *Term) (*Term, *Term, bool) {
+	t = stripConv(t)
+	if t != nil && t.Op == prefixStorePkg+".NewStore" && len(t.A) == 2 {
+		return t.A[0], t.A[1], true
+	}
+	return nil, nil, false
+}
+
+// fullKey: the key of the parent store that a prefix store with prefix P uses for the relative key rel.
+func (e *evaluator) fullKey(P, rel *Term) *Term {
+	if rel == nil || rel.IsAt("#nil") {
+		return P
+	}
+	r := stripConv(rel)
+	// K[len(P):] of a key K of P's own family is K again
+	if r.Op == "slice" && len(r.A) == 3 && r.A[2].IsAt("_") {
+		lo := stripConv(r.A[1])
+		if lo.Op == "len" && len(lo.A) == 1 && stripConv(lo.A[0]).Eq(stripConv(P)) {
+			return r.A[0]
+		}
+	}
+	return mk("append", P, mk("spread", rel)).withType(rel.Typ)
+}
+
+// normPrefixStore rewrites operations on a prefix store to the same operations on its parent store under the full
+// key: Get/Has/Set/Delete(rel) → parent.Op(P‖rel); Iterator(nil, nil) → prefix scan of P; a prefix scan of rel inside
+// the sub-store → prefix scan of P‖rel. The iterator of a sub-store returns relative keys: its term carries the
+// marker (rel P), which the Key() call turns into Key()[len(P):].
+func (e *evaluator) normPrefixStore(ci *callInfo) {
+	name := ci.name
+	switch {
+	case strings.HasPrefix(name, prefixStorePkg+".Store.") && ci.recv != nil:
+		S, P, ok := isPrefixStore(ci.recv)
+		if !ok {
+			return
+		}
+		op := shortName(name)
+		switch op {
+		case "Get", "Has", "Delete", "Set":
+			if len(ci.args) == 0 {
+				return
+			}
+			ci.name = ifaceKVStore + "." + op
+			ci.recv = S
+			ci.args = append([]*Term{e.fullKey(P, ci.args[0])}, ci.args[1:]...)
+		case "Iterator", "ReverseIterator":
+			if len(ci.args) == 2 && ci.args[0].IsAt("#nil") && ci.args[1].IsAt("#nil") {
+				ci.name = "sdk.KVStorePrefixIterator"
+				if op == "ReverseIterator" {
+					ci.name = "sdk.KVStoreReversePrefixIterator"
+				}
+				ci.recv = nil
+				ci.args = []*Term{S, P, mk("rel", P)}
+			}
+		}
+	case (name == "sdk.KVStorePrefixIterator" || name == "sdk.KVStoreReversePrefixIterator") && len(ci.args) == 2:
+		if S, P, ok := isPrefixStore(ci.args[0]); ok {
+			ci.args = []*Term{S, e.fullKey(P, ci.args[1]), mk("rel", P)}
+		}
+	case strings.HasSuffix(name, "Iterator.Key") || strings.HasSuffix(name, "Iterator.Value") || strings.HasSuffix(name, "Iterator.Valid") ||
+		strings.HasSuffix(name, "Iterator.Next") || strings.HasSuffix(name, "Iterator.Close") || strings.HasSuffix(name, "Iterator.Error"):
+		// handled by the caller through relIter (the receiver keeps its marker only as a variable's value)
+	}
+}
+
+// relIter: an iterator term that carries the relative-key marker — returns the plain iterator term and the prefix.
+func relIter(t *Term) (*Term, *Term, bool) {
+	if t == nil || !(t.Op == "sdk.KVStorePrefixIterator" || t.Op == "sdk.KVStoreReversePrefixIterator") || len(t.A) != 3 || t.A[2].Op != "rel" {
+		return nil, nil, false
+	}
+	return &Term{Op: t.Op, A: t.A[:2], Typ: t.Typ, Obj: t.Obj, Pos: t.Pos}, t.A[2].A[0], true
 }
